@@ -589,7 +589,11 @@ func (d *driver) setup(spec CfgSpec) error {
 	jw := oidc.NewJWKSProvider(e.cfg, tlsPool)
 	fac := oidc.NewSessionStoreFactory(e.cfg)
 	e.factory = &spyFactory{d: d, real: fac, spies: map[oidc.SessionStore]*spyStore{}}
-	e.filter = server.NewExtAuthZFilter(e.cfg, tlsPool, &spyJWKS{d: d, real: jw}, e.factory)
+	var keys oidc.JWKSProvider = &spyJWKS{d: d, real: jw}
+	if spec.RealJwks {
+		keys = jw
+	}
+	e.filter = server.NewExtAuthZFilter(e.cfg, tlsPool, keys, e.factory)
 	proto.Merge(e.cfg, &cf.Config)
 	if pr, ok := logging.(interface{ PreRun() error }); ok {
 		_ = pr.PreRun() // applies log_level
@@ -658,7 +662,7 @@ func (d *driver) cfgEvent(sc *Scenario) map[string]any {
 			"idHeader": f.IDHeader, "idPreamble": f.IDPreamble, "atHeader": f.ATHeader, "atPreamble": f.ATPreamble,
 			"idHeaderL": strings.ToLower(f.IDHeader), "atHeaderL": strings.ToLower(f.ATHeader),
 			"logout": f.Logout, "abs": f.Abs, "idle": f.Idle, "scopes": scopes, "ownQuery": ownQ,
-			"discovery": f.Discovery, "idp": idp, "cookieName": cookieName(&f), "afterDeny": f.After == "deny", "secretRef": f.SecretRef != ""})
+			"discovery": f.Discovery, "idp": idp, "cookieName": cookieName(&f), "afterDeny": f.After == "deny", "secretRef": f.SecretRef != "", "keysObserved": !d.env.spec.RealJwks})
 	}
 	tags := []any{}
 	for _, t := range sc.Tags {
